@@ -19,7 +19,9 @@ type jv struct {
 	Msg  string
 }
 
-func jvf(tags []string, format string, a ...any) jv { return jv{Tags: tags, Msg: fmt.Sprintf(format, a...)} }
+func jvf(tags []string, format string, a ...any) jv {
+	return jv{Tags: tags, Msg: fmt.Sprintf(format, a...)}
+}
 
 // putRec is one Put as seen by the recording replayer (Joe's serialisation order).
 type putRec struct {
@@ -44,11 +46,11 @@ type regRec struct {
 }
 
 type joeView struct {
-	Puts      []putRec
-	Regs      map[string]regRec
-	PanicAt   int // log index of the first panic fault, -1 if none
-	PubByTok  map[string]*jPubTrace
-	PutByTok  map[string]*putRec
+	Puts        []putRec
+	Regs        map[string]regRec
+	PanicAt     int // log index of the first panic fault, -1 if none
+	PubByTok    map[string]*jPubTrace
+	PutByTok    map[string]*putRec
 	firstSDCall int64 // call stamp of the earliest Shutdown (0 = none)
 }
 
